@@ -44,8 +44,8 @@ pub fn prop() -> Prop {
          (schedules): at least one thread is preempted between two of its allocations; distinct by \
          (configuration, allocation order).",
     )
-    .random("schedules", check_schedule, |t| if t == Tier::Quick { 8_000 } else { 160_000 }, |_| 8 + SEGMENT * EXECUTIONS)
-    .random("pack", check_pack, |t| if t == Tier::Quick { 200_000 } else { 4_000_000 }, |_| 16)
+    .random("schedules", check_schedule, |t| if t == Tier::Quick { 8_000 } else { 120_000 }, |_| 8 + SEGMENT * EXECUTIONS)
+    .random("pack", check_pack, |t| if t == Tier::Quick { 200_000 } else { 3_000_000 }, |_| 16)
     .random("pack-parse", check_pack_parse, |t| if t == Tier::Quick { 30_000 } else { 600_000 }, |_| 400)
     // zero-case stage: replays a shuttle schedule string found by the custom stage
     .random("shuttle-replay", check_shuttle_replay, |_| 0, |_| 4096)
@@ -1159,7 +1159,7 @@ fn custom(cfg: &RunCfg) -> CustomReport {
     let _ = std::fs::create_dir_all(&work);
 
     // (a) shuttle's own schedulers, in child processes (one exploration at a time per process)
-    let (cases, iters): (u64, usize) = if quick { (400, 50) } else { (5000, 100) };
+    let (cases, iters): (u64, usize) = if quick { (400, 50) } else { (4000, 100) };
     let nchildren = jobs.min(cases as usize).max(1) as u64;
     let per = cases.div_ceil(nchildren);
     let handles: Vec<_> = (0..nchildren)
